@@ -78,6 +78,9 @@ class CompiledFunction:
 class LoopContext:
     """Context for loops (for break/continue)."""
 
+    # Operands the construct keeps on the stack while its body runs (the
+    # iterator of for-in/for-of, the discriminant of switch)
+    stack_slots: int = 0
     break_jumps: List[int] = field(default_factory=list)
     continue_jumps: List[int] = field(default_factory=list)
     label: Optional[str] = None
@@ -90,6 +93,8 @@ class TryContext:
     """Context for try-finally blocks (for break/continue/return)."""
 
     finalizer: Any = None  # The finally block AST node
+    loop_depth: int = 0  # len(loop_stack) where the statement starts
+    in_block: bool = True  # Inside the try block: its handler is installed
 
 
 class Compiler:
@@ -204,12 +209,44 @@ class Compiler:
         self.bytecode[pos + 1] = target & 0xFF  # Low byte
         self.bytecode[pos + 2] = (target >> 8) & 0xFF  # High byte
 
-    def _emit_pending_finally_blocks(self) -> None:
-        """Emit all pending finally blocks (for break/continue/return)."""
-        # Emit finally blocks in reverse order (innermost first)
-        for try_ctx in reversed(self.try_stack):
-            if try_ctx.finalizer:
-                self._compile_statement(try_ctx.finalizer)
+    def _loop_index(self, ctx: LoopContext) -> int:
+        """Position of a context in loop_stack (by identity)."""
+        for i, candidate in enumerate(self.loop_stack):
+            if candidate is ctx:
+                return i
+        raise ValueError("context is not active")
+
+    def _emit_unwind(self, target: int, drop_operands: bool = True) -> None:
+        """Emit what a jump undoes on its way out (for break/continue/return).
+
+        target is the loop_stack index of the context the jump stays in (-1:
+        it leaves the function). Innermost first, every for-in/for-of/switch
+        that is left gives up its operand and every try statement that is left
+        ends its handler and runs its finally block. Statements around the
+        target, or of an enclosing function, are not left and stay untouched.
+        """
+        loops, tries = self.loop_stack, self.try_stack
+        li, ti = len(loops) - 1, len(tries) - 1
+        while True:
+            leaves_try = ti >= 0 and tries[ti].loop_depth > target
+            if leaves_try and tries[ti].loop_depth > li:
+                try_ctx = tries[ti]
+                if try_ctx.in_block:
+                    self._emit(OpCode.TRY_END)
+                if try_ctx.finalizer:
+                    # The finally block runs as code of the place it is written
+                    self.loop_stack = loops[: try_ctx.loop_depth]
+                    self.try_stack = tries[:ti]
+                    self._compile_statement(try_ctx.finalizer)
+                    self.loop_stack, self.try_stack = loops, tries
+                ti -= 1
+            elif li > target:
+                if drop_operands:
+                    for _ in range(loops[li].stack_slots):
+                        self._emit(OpCode.POP)
+                li -= 1
+            else:
+                break
 
     def _add_constant(self, value: Any) -> int:
         """Add a constant and return its index."""
@@ -541,7 +578,7 @@ class Compiler:
             self.loop_stack.pop()
 
         elif isinstance(node, ForInStatement):
-            loop_ctx = LoopContext()
+            loop_ctx = LoopContext(stack_slots=1)
             self.loop_stack.append(loop_ctx)
 
             # Compile object expression
@@ -599,18 +636,19 @@ class Compiler:
 
             self._emit(OpCode.JUMP, loop_start)
             self._patch_jump(jump_done)
-            self._emit(OpCode.POP)  # Pop iterator
-
-            # Patch break and continue jumps
+            # break leaves the same way: the iterator goes on every way out
             for pos in loop_ctx.break_jumps:
                 self._patch_jump(pos)
+            self._emit(OpCode.POP)  # Pop iterator
+
+            # Patch continue jumps
             for pos in loop_ctx.continue_jumps:
                 self._patch_jump(pos, loop_start)
 
             self.loop_stack.pop()
 
         elif isinstance(node, ForOfStatement):
-            loop_ctx = LoopContext()
+            loop_ctx = LoopContext(stack_slots=1)
             self.loop_stack.append(loop_ctx)
 
             # Compile iterable expression
@@ -651,11 +689,12 @@ class Compiler:
 
             self._emit(OpCode.JUMP, loop_start)
             self._patch_jump(jump_done)
-            self._emit(OpCode.POP)  # Pop iterator
-
-            # Patch break and continue jumps
+            # break leaves the same way: the iterator goes on every way out
             for pos in loop_ctx.break_jumps:
                 self._patch_jump(pos)
+            self._emit(OpCode.POP)  # Pop iterator
+
+            # Patch continue jumps
             for pos in loop_ctx.continue_jumps:
                 self._patch_jump(pos, loop_start)
 
@@ -688,8 +727,8 @@ class Compiler:
                 else:
                     raise SyntaxError("'break' outside of loop")
 
-            # Emit pending finally blocks before the break
-            self._emit_pending_finally_blocks()
+            # Leave everything between here and the target
+            self._emit_unwind(self._loop_index(ctx))
 
             pos = self._emit_jump(OpCode.JUMP)
             ctx.break_jumps.append(pos)
@@ -725,20 +764,22 @@ class Compiler:
             if ctx is None:
                 raise SyntaxError(f"label '{target_label}' not found")
 
-            # Emit pending finally blocks before the continue
-            self._emit_pending_finally_blocks()
+            # Leave everything between here and the loop
+            self._emit_unwind(self._loop_index(ctx))
 
             pos = self._emit_jump(OpCode.JUMP)
             ctx.continue_jumps.append(pos)
 
         elif isinstance(node, ReturnStatement):
-            # Emit pending finally blocks before the return
-            self._emit_pending_finally_blocks()
-
+            # The operand is evaluated where it is written; then the try
+            # statements of this function are left (the operands of the
+            # activation go with its frame)
             if node.argument:
                 self._compile_expression(node.argument)
+                self._emit_unwind(-1, drop_operands=False)
                 self._emit(OpCode.RETURN)
             else:
+                self._emit_unwind(-1, drop_operands=False)
                 self._emit(OpCode.RETURN_UNDEFINED)
 
         elif isinstance(node, ThrowStatement):
@@ -747,16 +788,19 @@ class Compiler:
             self._emit(OpCode.THROW)
 
         elif isinstance(node, TryStatement):
-            # Push TryContext if there's a finally block so break/continue/return
-            # can inline the finally code
-            if node.finalizer:
-                self.try_stack.append(TryContext(finalizer=node.finalizer))
+            # Push TryContext so break/continue/return inside the statement
+            # can end the handler and inline the finally code
+            try_ctx = TryContext(
+                finalizer=node.finalizer, loop_depth=len(self.loop_stack)
+            )
+            self.try_stack.append(try_ctx)
 
             # Try block
             try_start = self._emit_jump(OpCode.TRY_START)
 
             self._compile_statement(node.block)
             self._emit(OpCode.TRY_END)
+            try_ctx.in_block = False
 
             # Jump past exception handler to normal finally
             jump_to_finally = self._emit_jump(OpCode.JUMP)
@@ -777,12 +821,12 @@ class Compiler:
             elif node.finalizer:
                 # No catch, only finally - exception is on stack
                 # Run finally then rethrow
+                try_ctx.finalizer = None  # This copy is the finally block itself
                 self._compile_statement(node.finalizer)
                 self._emit(OpCode.THROW)  # Rethrow the exception
 
             # Pop TryContext before compiling normal finally
-            if node.finalizer:
-                self.try_stack.pop()
+            self.try_stack.pop()
 
             # Normal finally block (after try completes normally or after catch)
             self._patch_jump(jump_to_finally)
@@ -815,7 +859,7 @@ class Compiler:
 
             # Case bodies
             case_positions = []
-            loop_ctx = LoopContext(is_loop=False)  # For break statements only
+            loop_ctx = LoopContext(is_loop=False, stack_slots=1)  # For break only
             self.loop_stack.append(loop_ctx)
 
             for i, case in enumerate(node.cases):
@@ -824,6 +868,9 @@ class Compiler:
                     self._compile_statement(stmt)
 
             self._patch_jump(jump_end)
+            # break leaves the same way: the discriminant goes on every way out
+            for pos in loop_ctx.break_jumps:
+                self._patch_jump(pos)
             self._emit(OpCode.POP)  # Pop discriminant
 
             # Patch jumps to case bodies
@@ -832,10 +879,6 @@ class Compiler:
             if default_jump:
                 pos, idx = default_jump
                 self._patch_jump(pos, case_positions[idx])
-
-            # Patch break jumps
-            for pos in loop_ctx.break_jumps:
-                self._patch_jump(pos)
 
             self.loop_stack.pop()
 
@@ -1019,6 +1062,7 @@ class Compiler:
         old_constants = self.constants
         old_locals = self.locals
         old_loop_stack = self.loop_stack
+        old_try_stack = self.try_stack
         old_in_function = self._in_function
         old_free_vars = self._free_vars
         old_cell_vars = self._cell_vars
@@ -1032,6 +1076,7 @@ class Compiler:
         self.constants = []
         self.locals = [p.name for p in node.params] + ["arguments"]
         self.loop_stack = []
+        self.try_stack = []
         self._in_function = True
 
         # Collect all var declarations to know the full locals set
@@ -1078,6 +1123,7 @@ class Compiler:
         self.constants = old_constants
         self.locals = old_locals
         self.loop_stack = old_loop_stack
+        self.try_stack = old_try_stack
         self._in_function = old_in_function
         self._free_vars = old_free_vars
         self._cell_vars = old_cell_vars
@@ -1104,6 +1150,7 @@ class Compiler:
         old_constants = self.constants
         old_locals = self.locals
         old_loop_stack = self.loop_stack
+        old_try_stack = self.try_stack
         old_in_function = self._in_function
         old_free_vars = self._free_vars
         old_cell_vars = self._cell_vars
@@ -1124,6 +1171,7 @@ class Compiler:
             self.locals.append(name)
 
         self.loop_stack = []
+        self.try_stack = []
         self._in_function = True
 
         # Collect all var declarations to know the full locals set
@@ -1176,6 +1224,7 @@ class Compiler:
         self.constants = old_constants
         self.locals = old_locals
         self.loop_stack = old_loop_stack
+        self.try_stack = old_try_stack
         self._in_function = old_in_function
         self._free_vars = old_free_vars
         self._cell_vars = old_cell_vars
